@@ -63,9 +63,25 @@ def check_C03(tier, seed):
     return _sys("C03", tier, seed, ["C03"], ["mixed", "fanout", "ties", "zerodelay"], 6, 30, 6, 12, em, "small", "medium")
 
 
+DIST_EM = lambda r: {"ranks": r.choice([2, 2, 3]), "threads": r.choice([1, 2, 2]), "net": r.choice([0, 0, 1]),
+                     "batch": r.choice([1, 1, 2]), "period": r.choice([0, 0, 30])}
+
+
+def _sys_dist(pid, tier, seed, own, fams, nq, nt, cq, ct, emphasis, dq, dt, size_q="small", size_t="small"):
+    """single-node campaign followed by a multi-rank campaign (fake MPI) for properties with a distributed part"""
+    c = syscamp.Campaign(pid, tier, seed, own_ids=own)
+    try:
+        c.build(dist=True)
+        c.run(_models(tier, seed, fams, nq, nt, size_q, size_t), cq if tier == "quick" else ct, emphasis=emphasis)
+        c.run(_models(tier, seed + 50, fams, max(2, nq // 2), max(4, nt // 2), size_q, size_t), dq if tier == "quick" else dt, emphasis=DIST_EM)
+        return c.finish()
+    finally:
+        c.close()
+
+
 def check_C04(tier, seed):
     em = lambda r: {"batch": r.choice([1, 1, 1, 2]), "period": r.choice([0, 0, 0, 20]), "threads": r.choice([2, 2, 3, 3, 4])}
-    return _sys("C04", tier, seed, ["C04"], ["mixed", "fanout", "zerodelay", "ties"], 6, 30, 6, 14, em, "small", "medium")
+    return _sys_dist("C04", tier, seed, ["C04"], ["mixed", "fanout", "zerodelay", "ties"], 6, 30, 5, 12, em, 6, 14, "small", "medium")
 
 
 def _alloc_runs(tier, seed):
@@ -103,7 +119,7 @@ def check_C05(tier, seed):
 
 def check_C06(tier, seed):
     em = lambda r: {"switch": r.choice(["1/2", "1/8", "1/24", "1/96"]), "threads": r.choice([2, 3, 4, 6])}
-    return _sys("C06", tier, seed, ["C06"], ["fanout", "mixed", "fanout", "zerodelay", "ties"], 6, 30, 6, 14, em)
+    return _sys_dist("C06", tier, seed, ["C06"], ["fanout", "mixed", "fanout", "zerodelay", "ties"], 6, 30, 5, 12, em, 6, 14)
 
 
 def _mc(spec, cfg, workers=8, timeout=1200, heap="8g"):
@@ -594,5 +610,22 @@ def check_C20(tier, seed):
                              "and by the shipped rootsim_stats.py, every record compared with the counters accumulated from the observation points",
                         assumptions=["timing fields of the records (processed time, checkpoint time, ...) are not constrained",
                                      "single node (multi-rank files are produced through MPI data messages, see C02)"])
+    finally:
+        c.close()
+
+
+def check_C02(tier, seed):
+    c = syscamp.Campaign("C02", tier, seed, own_ids=["C02", "C01", "C03"])
+    try:
+        c.build(dist=True)
+        em = lambda r: {"ranks": r.choice([2, 2, 3]), "threads": r.choice([1, 2, 2, 3]), "net": r.choice([0, 0, 1]),
+                        "batch": r.choice([1, 1, 2, 8]), "period": r.choice([0, 0, 40])}
+        c.run(_models(tier, seed, ["mixed", "fanout", "ties", "zerodelay", "mixed", "nonmono"], 6, 36), 6 if tier == "quick" else 14, emphasis=em)
+        return c.finish(rule="generated models x (2-3 ranks) x (1-3 threads per rank) x checkpoint interval x batch x GVT period x scheduler seeds; the ranks are "
+                             "renamed copies of the real core (distributed/mpi.c included) in one process over a fake MPI whose delivery order across sender threads, probe "
+                             "misses and collective completion times are chosen by the scheduler; distinct by (model, configuration, schedule seed)",
+                        assumptions=["MPI semantics as used: eager copy at Isend, non-overtaking per (sender thread, destination rank), collectives complete after all "
+                                     "ranks posted; conformance of a real MPI library to this is assumed",
+                                     "sequential consistency; the serial reference trace is validated against SeqSim first"])
     finally:
         c.close()
